@@ -371,16 +371,34 @@ func init() {
 // is, at most two downloaded segments wait while another one is being processed.
 func scC20E2E(r *Run) {
 	T := r.T
-	g := &originGen{containers: []string{"ts", "fmp4"}, modes: []string{"vod", "vod", "event"}, minSegs: 5, maxSegs: 14,
+	g := &originGen{containers: []string{"ts", "fmp4"}, modes: []string{"vod", "vod", "event", "scripted"}, minSegs: 5, maxSegs: 14,
 		renditions: true, byteRanges: true, multiFrag: false, segDurMs: []int{400, 1000, 2000}, noPDTChance: 5}
 	o := genStubOrigin(r, g)
 	for _, st := range o.streams {
+		if st.mode == "scripted" {
+			// a playlist that grows by one or two segments with every poll, however fast the polls come
+			st.cursor = 2
+			st.window = 0
+			st.plType = "EVENT"
+			for i := 0; i < 64; i++ {
+				st.steps = append(st.steps, Pick(T, 1, 1, 2))
+			}
+			st.endAfter = len(st.segs)
+			continue
+		}
 		if st.mode != "vod" {
 			st.endAfter = len(st.segs)
 			for _, sg := range st.segs {
 				sg.availAt = 0 // everything is available at once: the server is as fast as it can be
 			}
 		}
+	}
+	if T.Chance(1, 5) {
+		for _, st := range o.streams {
+			st.hintNoBlock = true
+			st.version = 9
+		}
+		r.Probe("preload-hint-without-block-reload")
 	}
 	w := newCliWorld(r, o, o.primaryURL(), plainFate(T, Pick(T, 0, 0, 5, 100, 3000)))
 	total := time.Duration(len(o.streams[0].segs)) * o.streams[0].segs[0].dur
